@@ -2329,6 +2329,10 @@ func Main(prop string) {
 		zerolog.SetGlobalLevel(zerolog.Disabled)
 	}
 	dpos.VerifC01DecorateBlockReward()
+	// what the node's start-up does with its configuration (VerifierCount = number of signature workers)
+	if err := chain.Init(1<<20, "", false, 20, 2); err != nil {
+		panic(err)
+	}
 	n := 0
 	nRandom := run.Pick(6, 40)
 	blocks := run.Pick(5, 12)
